@@ -760,7 +760,7 @@ fn main() {
     dist.insert("canary_distinct_hash_orders_of_40".into(), canary_orders.len() as u64);
 
     // ---- 1. CSchema
-    let n_schema = if thorough { 1500 } else { 250 };
+    let n_schema = if thorough { 4000 } else { 300 };
     let mut nonuniq_outcomes = 0u64;
     for _ in 0..n_schema {
         let n = rng.range(0, 9);
@@ -833,10 +833,10 @@ fn main() {
     dist.insert("map_str_calls_with_order_dependent_result(non-injective f)".into(), nonuniq_outcomes);
 
     // ---- 2. projects: CResolve, CSkeleton, CGen
-    let n_proj = if thorough { 400 } else { 70 };
+    let n_proj = if thorough { 1200 } else { 120 };
     let mut projects: Vec<Project> = vec![];
     for pi in 0..n_proj {
-        let typed = rng.chance(5, 6);
+        let typed = rng.chance(3, 4);
         let p = gen_project(&mut rng, pi % 2 == 0, typed);
         let files = p.files();
         // faults for the resolver: duplicate a chunk / drop an original (every 4th project)
@@ -902,7 +902,7 @@ fn main() {
 
     // ---- 3. determinism: in-process repetition
     let k_in = if thorough { 12 } else { 5 };
-    let n_det = if thorough { projects.len().min(200) } else { projects.len().min(30) };
+    let n_det = if thorough { projects.len().min(400) } else { projects.len().min(40) };
     let mut verdicts: BTreeMap<String, u64> = BTreeMap::new();
     let mut inproc: Vec<Outcome> = vec![];
     for p in projects.iter().take(n_det) {
@@ -926,7 +926,7 @@ fn main() {
     for (k, v) in &verdicts { dist.insert(format!("inprocess_verdict_{k}"), *v); }
 
     // ---- 4. permuted projects: verdict and denotation
-    let n_perm = if thorough { 1000 } else { 50 };
+    let n_perm = if thorough { 3000 } else { 100 };
     let mut perm_done = 0;
     let mut pi = 0;
     while perm_done < n_perm && !projects.is_empty() && pi < n_det.max(1) * 40 {
@@ -968,7 +968,7 @@ fn main() {
     let mut cli_runs = 0u64;
     if let Some(cli) = &cli {
         let k_cli = if thorough { 20 } else { 3 };
-        let n_cli = if thorough { 30 } else { 5 };
+        let n_cli = if thorough { 60 } else { 8 };
         let root = args.out.join("cli-projects");
         // prefer projects whose in-process verdict is ok, plus one that fails
         let mut order: Vec<usize> = (0..inproc.len()).filter(|&i| inproc[i].verdict == "ok").collect();
